@@ -114,3 +114,19 @@ Definition dk_io_ds : nat := 60.
 (* the harness scenario with the constants of the code *)
 Definition dk_case (k : dk_kind) (ages : list nat) : list (bool * bool) :=
   dk_session false dk_hs_ds dk_idle_ds dk_io_ds k ages.
+
+(* =====================================================================================================================
+   Round 9 — the idle time-out an upstream built by NewUpstream runs with, per scheme (tenths of a second).
+   upstream.go NewUpstream: udp pins one minute for the shared socket (the option is not consulted); tcp / tls (with or
+   without pipelining): the option, 10 s when unset; https (net/http): the option, 30 s when unset.  [opt = 0] = the
+   option is unset (what app/router always passes).  0 as a RESULT would mean "no limit". *)
+Inductive ut_scheme := UtUdp | UtTcp | UtTcpP | UtTls | UtTlsP | UtHttps.
+
+Definition ut_default (s : ut_scheme) : nat :=
+  match s with UtUdp => 600 | UtHttps => 300 | _ => 100 end.
+
+Definition ut_idle (s : ut_scheme) (opt : nat) : nat :=
+  match s with
+  | UtUdp => ut_default UtUdp
+  | _ => match opt with 0 => ut_default s | _ => opt end
+  end.
